@@ -231,7 +231,13 @@ def _sweep(ck, p, byk):
     # ---- the sort key
     sorts = [(bi, t) for bi, t in f.calls() if method(t) in ("sort_by_key", "sort_unstable_by_key", "sort_by_cached_key") and _base_local(f, pv, t["args"][0]) == 1]
     if len(sorts) != 1:
-        ck.refuted(rule, "remove_overlaps:sort-key", f.span, "expected exactly one sort_by_key on the lint vector, found %d (a comparator-based or missing sort is not understood)" % len(sorts))
+        cmp_sorts = [(bi, t) for bi, t in f.calls() if method(t) in ("sort_by", "sort_unstable_by", "sort", "sort_unstable") and _base_local(f, pv, t["args"][0]) == 1]
+        if not sorts and cmp_sorts:
+            ck.undecided(rule, "remove_overlaps:sort-key", f.span, "the lint vector is sorted with a comparator (%s): which order it produces is not decided, and with it the sweep" % method(cmp_sorts[0][1]))
+        elif not sorts:
+            ck.refuted(rule, "remove_overlaps:sort-key", f.span, "the lint vector is not sorted before the sweep: `start < running end` then says nothing about overlap")
+        else:
+            ck.undecided(rule, "remove_overlaps:sort-key", f.span, "%d keyed sorts of the lint vector: not of the recognised form" % len(sorts))
         return
     sb, stt = sorts[0]
     kc = None
